@@ -15,7 +15,7 @@ ASSUMPTIONS = []
 
 def cases(rng, tier):
     n = 250 if tier == "quick" else 4000
-    return family_cases(rng, [("autopush", G.gen_autopush), ("layout", G.gen_layout)], n, faults=0.0)
+    return family_cases(rng, [("autopush", G.gen_autopush), ("layout", G.gen_layout), ("shrink", G.gen_shrink)], n, faults=0.0)
 
 
 def nontrivial(case, reply):
